@@ -8,6 +8,7 @@ use num_traits::{One, Zero};
 
 mod batch;
 mod msm;
+mod par;
 mod poly;
 use msm::{gen_case, pool, run_bls_specific, run_bn_specific, run_booth, run_generic, BasePool, Entry, Mode, POOLS};
 
@@ -15,11 +16,11 @@ use msm::{gen_case, pool, run_bls_specific, run_bn_specific, run_booth, run_gene
 /// visited exactly once with the right offset (the oracle: index-wise map equals the serial map).
 fn run_parallelize(ctx: &mut Ctx) {
     let lens: Vec<usize> = if ctx.quick() {
-        (0..=70).chain([97, 128, 255, 1000, 4096]).collect()
+        (0..=70).chain([97, 127, 128, 129, 255, 256, 257, 511, 513, 1000, 1023, 1025, 4096]).collect()
     } else {
         (0..=300).chain([511, 512, 513, 1000, 4095, 4096, 4097, 65537]).collect()
     };
-    for t in POOLS {
+    for t in par::POOLS9 {
         let p = pool(t);
         for &len in &lens {
             let seen = Mutex::new(Vec::new());
@@ -275,5 +276,10 @@ fn main() {
     section(&mut ctx, "inner-const", poly::run_inner_const);
     section(&mut ctx, "domain", poly::run_domain);
     section(&mut ctx, "commit", poly::run_commit);
+    section(&mut ctx, "par-maps", par::run_par_maps);
+    section(&mut ctx, "par-setup-domain", par::run_par_setup_domain);
+    section(&mut ctx, "helpers", par::run_helpers);
+    section(&mut ctx, "g2-unreduced", par::run_g2_and_unreduced);
+    section(&mut ctx, "best-loop", par::run_best_loop);
     ctx.finish();
 }
